@@ -33,9 +33,10 @@ P = {
          "(box_size() == ISO length, write_box advances by exactly that, read_box consumes exactly the declared size for both header forms, trailing bytes skipped), also for elst, edts, trun, traf, moof, mvex under their wire predicates; data box byte-exact both ways. "
          "Every box type is proved to report its own BoxType. Decoders of stbl, minf, mdia, trak, moov, moof, traf, trun, stsd, avc1, avcC (incl. NAL units), hev1, the hvcC fixed header, vp09, vpcC, tx3g, mp4a (esds selection), the AudioSpecificConfig and the descriptor length coding, data / ilst / meta / udta: functional, against layout predicates and forward folds over the sibling chain; vpcC and avcC encoders byte-exact with proved round trips. "
          "The spec-level round trip X_at(wr(d, p, X_bytes(b)), p, b) is proved for the 11 fixed-layout boxes, the 7 table boxes, ftyp, avcC, avc1, esds (descriptor tree), mp4a, stsd and hdlr (generated / hand-written lemmas), with decode-is-a-function lemmas for the tables. "
-         "Byte-exact encoders, proved write by write against reference bytes (tool/gen_pieces.py), additionally for the esds descriptors, vp09, hev1, hvcC (incl. the NAL-unit arrays), tx3g, url, dref, dinf, stbl, minf, mdia, trak and moov (edit lists and metadata have no byte-exact encoder and are required absent, as in everything the muxer builds)."),
+         "Byte-exact encoders, proved write by write against reference bytes (tool/gen_pieces.py), additionally for the esds descriptors, vp09, hev1, hvcC (incl. the NAL-unit arrays), tx3g, url, dref, dinf, stbl, minf, mdia, trak, moov, and on the fragment side elst, edts, trun, traf, moof, mvex, emsg (metadata boxes have no byte-exact encoder and are required absent, as in everything the muxer builds). "
+         "Kani proves decode(encode(x)) == x on the compiled code for smhd, mfhd, trex, vmhd with every field symbolic (complete; a violation there is reported with a replayed counterexample)."),
    note=TRUST + " Domain: box_size <= u32::MAX (D-20). Round trip not mechanised for the size-level boxes. "
-        "Not under functional contract: hdlr name / url location strings on the decode side, the emsg decoder (consumption only), byte-exact encoders of elst / emsg / trun (sizes only), encoders of ilst / meta / udta (HashMap iteration); the esds descriptor tree is decoded functionally for well-formed chains only (malformed chains: safety / termination only); container-level decode round trips are not mechanised."),
+        "Not under functional contract: hdlr name / url location strings on the decode side, encoders of ilst / meta / udta (HashMap iteration); the two NUL-terminated string helpers of emsg are assumed (their contracts state the bytes); the esds descriptor tree is decoded functionally for well-formed chains only (malformed chains: safety / termination only); container-level decode round trips are not mechanised."),
  'C05': dict(claim=True, cat='proof', technique='same obligations as C04; the specs are generated from the ISO syntax tables with clause numbers (tool/gen_layouts.py, tool/gen_tables.py) or written from them; Kani full-domain harnesses for bit-level helpers',
    text="Conformance of the boxes listed under C04 (byte level), of the descriptor length coding (size_of_length, Kani all u32), the AAC object-type escape coding (Verus + Kani all 2^16), the box-type registry (Kani: independent table) and BoxHeader::read (Kani, all 16-byte inputs: complete) to layouts written from ISO/IEC 14496-12/-14/-1, proved separately for encoder and decoder so that a symmetric mistake fails on both.",
    note=TRUST + " Bit-packed records: avcC, vpcC, the AudioSpecificConfig and the DecoderConfigDescriptor are covered byte-exactly; hvcC byte-exactly on the encode side and field by field (header and NAL-unit arrays) on the decode side."),
